@@ -21,7 +21,7 @@ class Contract:
 
     def __init__(self, name, target, state, requires=(), refines=None, view=None, ensures=(),
                  raises=(), policy=None, loops=None, props=(), call_kwargs=None, note="",
-                 max_paths=4000, timeout_ms=None, ref_args=None, ghost=(), setup=(), replayable=True, kw=()):
+                 max_paths=4000, timeout_ms=None, ref_args=None, ghost=(), setup=(), replayable=True, kw=(), poll_bound=None):
         self.name = name
         self.target = target
         self.state = state
@@ -36,6 +36,11 @@ class Contract:
         self.call_kwargs = call_kwargs or {}
         self.note = note
         self.max_paths = max_paths
+        # TERMINATION MEASURE for loops explored by unrolling: no `while` loop of the target (or of an inlined callee)
+        # makes more than this many turns on a feasible path -- obligation <name>.<fn>.loop<k>.bounded_turns.
+        # Stated per contract from the assumption it rests on (C02: A-HW-LIVE, an attempt resolves within
+        # `budget` <= 2 further SPI frames, so a polling loop makes at most budget + 3 polls).
+        self.poll_bound = poll_bound
         self.timeout_ms = timeout_ms
         self.ref_args = ref_args
         # False: callees are abstracted by contract (oracle outcomes / havoc), so a counter-model has no
